@@ -158,6 +158,16 @@ func corpus(repo string) [][]byte {
 			}
 		}
 	}
+	// large inputs (time proportional to the size, no limit below which the pipeline behaves and above which it does not):
+	// tens of thousands of lines and tokens, a single line of 300 000 characters, a deep parenthesis nest
+	out = append(out,
+		[]byte(strings.Repeat("dat 0\n", 30000)),
+		[]byte(strings.Repeat(" mov.i $0, $1 ; imp\n", 12000)),
+		[]byte(strings.Repeat("x", 300000)+"\n dat 0\n"),
+		[]byte("dat "+strings.Repeat("1+", 40000)+"1\n"),
+		[]byte("; "+strings.Repeat("c", 200000)+"\nmov 0, 1\n"),
+		[]byte("dat "+strings.Repeat("(", 3000)+"1"+strings.Repeat(")", 3000)+"\n"),
+		[]byte(strings.Repeat("l", 70000)+" equ 1\n"+strings.Repeat("\n", 70000)+"dat 0\n"))
 	// every prefix of a few small programs, with and without a final newline
 	for _, s := range []string{";name a\n;strategy b\nstart mov.i $0, $1 ; imp\n end start\n", "x equ 2\ni for x\n dat i, x\nrof\n;assert x\n"} {
 		for n := 0; n <= len(s); n++ {
